@@ -13,9 +13,15 @@ CHECKS = [
           "pretty-printing (SpannedDiagnosticFormatter: underline_span_with_text, file_location_msg, format_spanned, "
           "underline_spans_on_line_with_text) is mirrored too: C19_underline_rows_spec (the rows printed are exactly the lines of the span "
           "with their numbers, texts and underlines; no panic), refuted for the pinned code on CRLF / empty last line (repaired 358b143); "
-          "tied in release and debug builds.",
+          "tied in release and debug builds. "
+          "Audit round: a cache that was not fed the lexer's text answers None at every offset, so LRNonStreamingLexer::line_col and the position "
+          "LexParseError::pp prints panic for every span, and are total on a fed cache (C19_line_col_requires_fed_cache, C19_lexer_line_col_unfed_panics, "
+          "C19_lexer_line_col_total_on_fed_cache; the in-tree manual-lexer example built such a lexer, repaired 1b943b2). Tie additionally: format_conflicts on Eco "
+          "grammars whose conflicts name ADDED productions (out-of-bounds panic repaired cfcb52e; headers and rows vs the extracted file_location / underline rows), "
+          "lexers handed a cache of {the text, nothing, another length} x every boundary span, and the in-tree example programs built from the working tree and fed "
+          "erroneous stdin (first printed position = the model's).",
   "design_ref": "DESIGN.md §5 C19",
-  "note": _TB + "binary_search modelled by its documented contract on strictly increasing slices; UnicodeWidthStr::width is abstract in the theorems and restricted to characters of known width in the correspondence.",
+  "note": _TB + "binary_search modelled by its documented contract on strictly increasing slices; UnicodeWidthStr::width is abstract in the theorems and restricted to characters of known width in the correspondence. The example part builds /repo's example crates into .work/target-examples (cargo --offline --locked; skipped, never failed, when the build exceeds its limit) and uses a hand-written Python first-error oracle for the calc grammar.",
   "technique": "Coq proof (mirror model = declarative spec, induction over character lists) + differential correspondence with extracted model"},
  {"id": "C01",
   "text": "Coq theorems for ANY grammar/automaton dump that passes the boolean validators and for ALL token sequences: an accepted input "
@@ -47,9 +53,17 @@ CHECKS = [
           "the weak-compat/merge hook vs mirror vs declarative spec on real and perturbed item sets; the extracted loop mirror replays the "
           "implementation's recorded key orders and must rebuild the identical StateGraph; induced table = StateTable cell by cell; validated "
           "canonical LR(1) automaton (extracted canon_lr1): no conflict reported, no more states, same outcome on all generated inputs. "
-          "'Never more states than the canonical automaton' is observed per grammar only (no proof found).",
+          "'Never more states than the canonical automaton' is observed per grammar only (no proof found). "
+          "Audit round: 'LR(1)' in these theorems (lr1_grammar) is stated over the closure relation that FOLLOWS THE CODE, which keeps items with an empty "
+          "lookahead set; the property's textbook notion is now formalised too (lr1_textbook_grammar, certificate lr1_textbook_check with "
+          "C02_lr1_textbook_check_sound), the code's notion implies it (C02_lr1_grammar_textbook) and the two coincide on PRODUCTIVE grammars "
+          "(C02_lr1_notions_agree_productive), so every C02 theorem is about textbook LR(1) there; with an unproductive rule they differ and the "
+          "construction costs a textbook-LR(1) grammar its determinism (C02_phantom_item_costs_determinism_refuted, C02_lr1_notions_differ_refuted, "
+          "C02_phantom_needs_unproductive): known finding C02-phantom-item-unproductive-rule, reproduced in every run by a family of grammars with "
+          "unproductive rules of empty FIRST judged by an independent textbook oracle over (production, dot, token) triples; the same failure on a "
+          "productive grammar is a violation.",
   "design_ref": "DESIGN.md §5 C02",
-  "note": _TB + "canon_lr1 is unverified but its output is validated per grammar by the proved validators.",
+  "note": _TB + "canon_lr1 is unverified but its output is validated per grammar by the proved validators; canon_lr1 and the validators' closure condition share the code's closure notion (items without lookahead), the textbook side is an independent Python oracle + the extracted canon_tb certified by lr1_textbook_check.",
   "technique": "Coq proof (Pager's theorem and correctness of a mirror of pager_stategraph for all grammars; agreement of validated automata) + replay of the implementation's run by the extracted mirror + validated canonical LR(1) reference differential"},
  {"id": "C04",
   "text": "Coq theorems for any validated dump of a productive grammar and ALL inputs: a Reject at lexeme k implies the first k lexemes are "
@@ -66,9 +80,14 @@ CHECKS = [
           "rules with the earliest rule on ties, contiguity/tiling up to the end or a single error, named rules emit / unnamed skip, the "
           "run-length-encoded start-state stack refines a plain stack (push/pop/replace, pop-to-empty resets to INITIAL), inclusive/exclusive "
           "activity, and set_rule_ids returns exactly the names missing on either side. The mirror is tied to the code by running it, with "
-          "a match table computed independently with the regex crate, against LRNonStreamingLexerDef on generated specs x inputs.",
+          "a match table computed independently with the regex crate, against LRNonStreamingLexerDef on generated specs x inputs. "
+          "Audit round: the run depends on the match oracle only through the consulted cells (C09_lex_table_extensional); the harness now computes TWO tables - "
+          "the anchored match on the remaining slice (what lexer.rs asks: ties the model to the code) and the match of the written regex at that offset of the "
+          "WHOLE text (what the regex denotes) - and the lexer must equal the model run on the second. They differ exactly for look-behind assertions "
+          "(^ under multi_line, \\A, \\b, \\B, ...): C09_lookbehind_tables_differ_refuted; known finding C09-lookbehind-slice, reproduced in every run; a table "
+          "difference in a rule without such an assertion (decided on the regex-syntax HIR) is a violation.",
   "design_ref": "DESIGN.md §5 C09",
-  "note": _TB + "regex semantics is the regex crate's (oracle, not modelled); start-state ids/exclusive flags are read from Debug output.",
+  "note": _TB + "regex semantics is the regex crate's (oracle, not modelled); start-state ids/exclusive flags are read from Debug output. The whole-text table trusts Regex::find_at + 'starts at i' as the anchored match at i; the harness depends on regex-syntax to read each rule's HIR.",
   "technique": "Coq proof (mirror of the scan loop meets a declarative spec, induction over the input) + differential correspondence with a regex-crate match table"},
  {"id": "C11",
   "text": "Coq theorems about a function-by-function mirror of the lex-spec parser (LexParser, unescape, trim_end_unescaped, the header "
@@ -78,9 +97,16 @@ CHECKS = [
           "Tie: impl vs mirror transcripts on generated, mutated and truncated specs; an abstract-spec oracle (rules in order, names, "
           "start states, targets, span texts), regex equivalence through the regex crate on string batteries, flag probes. The whole-file "
           "round trip lex_from_str (print_spec layout spec) = spec_of spec is PROVED (C11_lex_roundtrip) and the formal printer's text is fed "
-          "to the real parser on every run.",
+          "to the real parser on every run. "
+          "Audit round (five repairs, 1205854 20c9d3b 326ccca c002878 0905507): the escape table equals the declarative list of escapes the regex engine gives a "
+          "meaning (C11_esc_table_spec; \\B and braced \\x{..} \\u{..} \\U{..}: C11_esc_table_orig_refuted), a rule's regex is trimmed of spaces and tabs only "
+          "(C11_trim_end_unescaped_spec, C11_trim_orig_refuted), the names of a %s/%x declaration are the maximal runs of non-white-space (C11_declared_names_spec, "
+          "C11_decl_blanks_refuted); totality and non-empty errors hold for all 2^8 combinations of repairs; the round trip covers several blanks between state names "
+          "and regexes ending in FF/NEL/LRM/RLM. Not mirrored, decided by direct clauses: numeric flags >= 2^32 are in force as written or refused with one located "
+          "Header error; a regex with unbalanced parentheses is exactly one RegexError; ANCH: every emitted lexeme is matched by its rule's regex, compiled on its "
+          "own, at offset 0 of the remaining input.",
   "design_ref": "DESIGN.md §5 C11, §A.3",
-  "note": _TB + "the %grmtools header end position and regex compilability are inputs of the mirror (header parser: C12; regex crate: oracle).",
+  "note": _TB + "the %grmtools header end position and regex compilability are inputs of the mirror (header parser: C12; regex crate: oracle). Numeric limits are observed through the public LexFlags::try_from on the parsed section; ANCH trusts the regex crate's leftmost-first search; look-behind across lexemes is C09's known finding.",
   "technique": "Coq proof on a mirror of the lex parser (escape rewriting = spec, totality, span indexing) + abstract-spec oracle + impl/mirror differential"},
  {"id": "C12",
   "text": "Coq theorems about a mirror of the %grmtools section parser for ALL strings: total with fuel 2|src|+4, never panics, a value or a "
@@ -88,9 +114,15 @@ CHECKS = [
           "C12_header_orig_diverges, C12_header_orig_panics; repaired). Totality of the yacc and lex parsers: C12_yacc_parse_total "
           "(whole ASTWithValidityInfo::new mirror, fuel |src|+1, never Panic) and C12_lex_parse_total / C12_lex_errs_nonempty, proved about "
           "the C10/C11 mirrors which are tied to the code by transcript equality. Plus mass differential: ~32k (quick) near-valid strings per run through all three real "
-          "parsers under catch_unwind and a watchdog, every error/warning span checked against is_char_boundary.",
+          "parsers under catch_unwind and a watchdog, every error/warning span checked against is_char_boundary. "
+          "Audit round, clause 'so it can always be rendered': YaccKind::try_from / SerialisationFormat::try_from are mirrored (Ok exactly on the documented forms: "
+          "C12_yacckind_conv_ok_iff; otherwise the error carries exactly the faulty components, 1..4 well-formed spans: C12_yacckind_conv_err_spans, "
+          "C12_conv_error_spans_wellformed); the renderer's label dispatch is total for any number of spans (C12_span_labels_total; before 87315cb it panicked iff "
+          "SpansKind::Error and >= 2 spans: C12_span_labels_orig_panics_iff, C12_render_invalid_entry_refuted). Tie: EVERY error and warning returned on every "
+          "generated text and every value conversion of a parsed section is rendered with SpannedDiagnosticFormatter under catch_unwind (no panic, non-empty, right "
+          "first line number); conversions = extracted mirror on every entry (~22 000 per quick run); multi-span errors are an obligation of every run.",
   "design_ref": "DESIGN.md §5 C12, §5E",
-  "note": _TB + "span well-formedness of yacc errors/warnings/AST spans and of lex errors is proved for the repaired code (C12_yacc_error_spans_wellformed, C12_lex_error_spans_wellformed; action-span ends and pre-fix lex spans refuted); the native stack is modelled as a frame budget: with the repaired parser (nesting limit 64) 65 frames always suffice (C12_header_depth_bounded); the pinned parser is refuted for every budget (C12_header_depth_unbounded_refuted).",
+  "note": _TB + "span well-formedness of yacc errors/warnings/AST spans and of lex errors is proved for the repaired code (C12_yacc_error_spans_wellformed, C12_lex_error_spans_wellformed; action-span ends and pre-fix lex spans refuted); the native stack is modelled as a frame budget: with the repaired parser (nesting limit 64) 65 frames always suffice (C12_header_depth_bounded); the pinned parser is refuted for every budget (C12_header_depth_unbounded_refuted). SpannedDiagnosticFormatter is executed, not mirrored, in C12 (its row printer is C19's mirror; C12_format_spanned_any_number_of_spans re-exports C19's theorem).",
   "technique": "Coq proof (header, yacc and lex parser mirrors total; header spans well-formed) + impl/mirror differential + panic/hang/bad-span oracle on mutated specifications"},
  {"id": "C15",
   "text": "Coq permutation theorems on mirrors whose hash-iteration orders are explicit parameters: Eco implicit-token numbering (pinned code "
@@ -98,9 +130,15 @@ CHECKS = [
           "(reachable set and renumbering independent of the pop schedule), one StateTable row (cells/gotos equal, conflict lists "
           "Permutation-equal; sorted = literally equal), and an abstract OnceLock (every thread observes f ()). Tie: the harness runs as 8 "
           "(16) separate processes per grammar and digests of every grammar/graph/table query and generated module bytes must coincide; "
-          "8 threads first-use a OnceLock-guarded reconstitution.",
+          "8 threads first-use a OnceLock-guarded reconstitution. "
+          "Audit round. Failing builds: sources with 2-6 independent faults of one kind, sources with several warnings, lexer sources and the error strings / stderr "
+          "of the compile-time builders give the same complete transcript in 16 processes (conflict diagnostics and missing-token lists as multisets); the %epp loop "
+          "is mirrored (C15_validate_epp_order_insensitive; pinned loop refuted and proved order-sensitive whenever two names are unknown; repaired 3e32e4e). CPCT+ "
+          "results incl. the ordered repairs() list - inputs with several first-rank repairs included (repaired ca69cd1) - are part of the cross-process digest and of "
+          "the 8-thread comparison. Every iteration over a randomly seeded container on the build path is listed from the source on each run with an audited "
+          "verdict; a new one alarms.",
   "design_ref": "DESIGN.md §5 C15",
-  "note": _TB + "hash seeds and thread interleavings are sampled on the implementation (quantified in the model); OnceLock model is an assumption about std.",
+  "note": _TB + "hash seeds and thread interleavings are sampled on the implementation (quantified in the model); OnceLock model is an assumption about std. The table of hash-iteration sites comes from a textual scan (receivers recognised by name, one level of aliasing); CPCT+ results are compared only where the wall clock cannot decide them and only on conflict-free tables without precedence.",
   "technique": "Coq proof (order-insensitivity by Permutation induction; schedule induction for OnceLock) + cross-process digest differential"},
  {"id": "C17",
   "text": "Coq theorems: the reference nullable/FIRST/FOLLOW/reachability analyses are exact for ALL grammars (iff with declarative "
@@ -111,19 +149,33 @@ CHECKS = [
           "NEW cost algorithms are mirrored and proved exact for every grammar and cost function (C17_min_costs_fixed_exact, "
           "C17_max_costs_fixed_exact, C17_fixed_costs_terminate, panic exactly when a true finite cost >= 65535). Tie: the "
           "implementation's firsts/follows/has_path/min/max costs/min_sentence(s) are compared bit for bit with the proved-exact references "
-          "and certified costs on generated grammars (Earley check of generated sentences).",
+          "and certified costs on generated grammars (Earley check of generated sentences). "
+          "Audit round, the public queries one by one: for every grammar, cost function and rule the mirrored query answers the true cost or panics, and it panics "
+          "iff the rule's OWN cost or ANOTHER rule's true finite cost is >= 65535 (C17_cost_query_exact_or_foreign_overflow, "
+          "C17_cost_query_panics_only_if_own_or_foreign; the second disjunct is known finding C17-overflow-unrelated-rule: C17_cost_panic_unrelated_rule_refuted). "
+          "Native stack of min_sentences as a frame budget: rules_len() frames always suffice and the bound is attained (C17_min_sentences_depth_le_rules, "
+          "_bound_tight, _chain_threshold); for every budget a chain grammar exhausts it (C17_min_sentences_depth_unbounded_refuted: known finding "
+          "C17-min_sentences-recursion-depth). Tie: every query of every rule asked on its own on an overflow family, each panic classified against the certified "
+          "costs; min_sentences on chains of 501..12001 rules in processes of their own on 2 MiB stacks; min_sentences = its extracted mirror, list in order.",
   "design_ref": "DESIGN.md §5 C17",
-  "note": _TB + "cost search code is unverified, only its certificate checkers are; FOLLOW is strict/textbook-bracketed when rules are unreachable.",
+  "note": _TB + "cost search code is unverified, only its certificate checkers are; FOLLOW is strict/textbook-bracketed when rules are unreachable. FIRST is over sentential forms (textbook reading); the frame-budget model is tied only through abort / answer at the measured depths; no complexity clause (min_sentence is exponential on a doubling chain).",
   "technique": "Coq proof (reference analyses exact; verified cost certificates) + exact differential against the implementation"},
  {"id": "C18",
   "text": "Coq theorems by induction over ALL operation histories (edits, option changes, broken sources, builds) on a mirror of both "
           "builders' regeneration decisions: a successful build leaves exactly the outputs of a clean build, regenerated() iff the "
-          "configuration changed since the last parser-successful build, an immediate rebuild is a no-op, which setting escapes the cache "
-          "string (StorageT; refuted, repaired), a failed build leaves nothing stale (refuted for the pinned code, proved for the repaired "
-          "variant). Tie: random and targeted histories replayed against the real CTLexerBuilder/CTParserBuilder, one process per build, "
-          "explicit mtimes, each step compared with the mirror and with a clean build.",
+          "configuration changed since the last parser-successful build, an immediate rebuild is a no-op, which settings escape the cache "
+          "string (StorageT, then LexemeT; each refuted and repaired - 9933a08 - and now C18_cache_records_all_generated_inputs: two settings generate "
+          "the same parser file from a grammar text IFF they give the same cache string; C18_type_params_recorded_cache_injective discharges the "
+          "hypothesis cache_injective for the builders as they are), a failed build leaves nothing stale (refuted for the pinned code, proved for the "
+          "repaired variant). The lexer builder's test_files inspector is an abstract verdict: the main theorem holds for histories in which it accepts "
+          "at every build (C18_incremental_equals_clean_inspector), is refuted otherwise (known finding C18-testfiles-cached: the check is skipped when "
+          "the parser output is cached), and every deviation from the clean build is exactly 'parser stage not regenerated and inspector rejects' "
+          "(C18_incremental_differs_only_by_skipped_inspector, C18_failed_build_no_stale_or_skipped_inspector). Tie: random and targeted histories replayed against the real CTLexerBuilder/CTParserBuilder, one process per build, "
+          "explicit mtimes, each step compared with the mirror and with a clean build. "
+          "Plus a static part on the source text of rebuild_cache (every type_name argument and every builder field flows into the cache string or is one of the "
+          "six documented-as-ignored fields), the parser builder's type parameter as an option of the histories, and test_files histories.",
   "design_ref": "DESIGN.md §5 C18",
-  "note": _TB + "file contents are abstract descriptors in the model (bijection with bytes checked per run); mtimes are set by the harness.",
+  "note": _TB + "file contents are abstract descriptors in the model (bijection with bytes checked per run); mtimes are set by the harness. The static cache-coverage part is a hand-written reader of Rust source text (syntactic over-approximation of 'is recorded'); the inspector's verdict is abstract in Coq and instantiated by a hand-made table checked against every clean build; replacing a source by a file with an OLDER mtime is outside the operation set.",
   "technique": "Coq proof (invariant over build histories on a mirror of the builders) + history replay differential against the real builders"},
  {"id": "C03",
   "text": "Coq theorems for ALL states, precedence assignments and BOTH hash iteration orders (as list parameters): the mirror of the "
@@ -132,9 +184,15 @@ CHECKS = [
           "shift/reduce triples and k-1 well-formed reduce/reduce pairs per cell, accept/reduce = hard error; precedence levels follow "
           "declaration order, production precedence = %prec token else last token; the %expect rule (pinned code refuted, repaired). Tie: "
           "every cell and conflict list of every generated table vs the extracted spec on the implementation's own items/edges; TP/PP vs "
-          "declarations; CTParserBuilder Ok/Err vs the %expect spec.",
+          "declarations; CTParserBuilder Ok/Err vs the %expect spec. "
+          "Audit round, three-way cells (a shift and >= 2 reductions on one token): byacc's remove_conflicts and bison's set_conflicts are executable definitions "
+          "(cell_yacc, cell_bison); outside three-way cells they coincide with each other and with the cell spec (C03_yacc_agrees_outside_three_way, "
+          "C03_cell_bison_eq_yacc_outside_three_way, C03_yacc_disagreement_is_three_way); on concrete three-way cells the mirror of StateTable::new differs from "
+          "Yacc for EVERY iteration order (C03_three_way_left_refuted, _nonassoc_refuted, _report_refuted: known finding C03-three-way-cell); byacc and bison differ "
+          "from each other on some (C03_bison_yacc_differ). Tie: every cell and conflict list vs cell_yacc (either Yacc accepted where they differ); "
+          "CTParserBuilder Ok/Err vs the counts of the Yacc reports.",
   "design_ref": "DESIGN.md §5 C03",
-  "note": _TB + "which k-1 reduce/reduce pairs are listed for k>2 candidates is only constrained (count, membership, losers), as the property leaves it open.",
+  "note": _TB + "which k-1 reduce/reduce pairs are listed for k>2 candidates is only constrained (count, membership, losers), as the property leaves it open. The byacc model is corroborated informationally by ocamlyacc's conflict totals; the bison model is read off the source and only used to accept more.",
   "technique": "Coq proof (mirror of table population = declarative cell spec for every iteration order) + exhaustive per-cell differential"},
  {"id": "C10",
   "text": "Coq theorems on two mirrors. (b) text->AST: character-level mirror of YaccParser + validation, total for ALL sources "
@@ -142,7 +200,12 @@ CHECKS = [
           "trips, action spans (refuted; repair blocked by a pinned test, known finding). (a) AST->grammar: build_faithful (exact shape of "
           "the indexed grammar for every well-formed AST), build_total, dense in-range indices for the repaired constructor (pinned code "
           "refuted). Tie: whole-transcript equality impl vs mirror on printed, mutated and truncated sources; print-then-parse oracle over "
-          "abstract grammars x 7 layouts; every accessor on every valid index vs the mirror.",
+          "abstract grammars x 7 layouts; every accessor on every valid index vs the mirror. "
+          "Audit round: the span of every production of a printed grammar ends after its last item, with or without an action (C10round_ast_of_prod_spans, "
+          "C10round_prod_span_ends_after_last_symbol; pinned variant refuted, repaired 69c4b9b; the oracle demands that end exactly); which of several unknown %epp "
+          "names is reported = the first declared (repaired 3e32e4e; no longer canonicalised by the harness). Two further known findings are live in every run, each "
+          "with a refutation witness and a named well-formedness condition of the round trip: braces inside Rust literals/comments of action code "
+          "(C10round_action_literal_brace_refuted, C10round_wf_layout_split) and layout kept after action types (C10round_actiontype_layout_refuted).",
   "design_ref": "DESIGN.md §5 C10",
   "note": _TB + "the whole-file round-trip law parse (print layout ag) = ast_of ag is PROVED (C10round_yacc_roundtrip) for all three dialects (Original, Grmtools "
           "with per-rule action types, Eco with %implicit_tokens), all 12 declaration kinds (%start %token %left/%right/%nonassoc %epp %avoid_insert "
@@ -160,7 +223,14 @@ CHECKS = [
           "statically on every generated module (data constants used only in the two _reconstitute arms with the arm's encoding, configured "
           "format and recoverer, entry point of the yacc kind, embedded bytes = serialisation of the run-time-built objects, one lex_flags). "
           "In addition the equivalence is decided by execution per generated program: generate, include!, compile once with rustc, run, and "
-          "compare lexemes, values, errors and repair sets with the run-time pipeline and with the model's predictions.",
+          "compare lexemes, values, errors and repair sets with the run-time pipeline and with the model's predictions. "
+          "PER RUN: with the run-time parser a relation (one run may return r) the generated parse() has the same set of outcomes (C13_ct_runs_are_rt_runs); equal "
+          "value, errors and repairs() lists on every input - erroneous ones with several equally ranked repair sequences included - under "
+          "applied_repair_determined, the fact /repo ca69cd1 established (C13_ct_equals_rt_value; C13_ct_equals_rt_value_refuted for the pinned hash-order "
+          "selection). The execution part compares value, number of errors and every repairs() list IN ORDER on every input, calls the generated parse() three "
+          "times per erroneous input, and reaches >= 50 inputs with >= 2 first-rank repair sequences per quick run; specifications whose generated module rustc "
+          "rejects (names differing only in case, %parse-param named like a local of parse()) are measured as scope observations. Static fact P2: each "
+          "_reconstitute arm reads with the very configuration expression ctbuilder.rs serialises that format with (both read from the source).",
   "design_ref": "DESIGN.md §5 C13",
   "category": "proof",
   "note": _TB + "rustc, quote!/prettyplease and the generated text are outside the model: pipeline equivalence is translation validation by compile-and-run (partial).",
@@ -171,9 +241,15 @@ CHECKS = [
           "Rust sources on every run (translator tools/schema_of_rust.py; a skipped/retyped/lost field breaks schema_wf and the proof gate). "
           "Tie: the extracted decoder consumes the implementation's bytes completely and re-encodes them identically for every generated "
           "grammar x {fix,var} x {u8,u16,u32}; decoded fields equal API answers; every public query and parse on the reconstituted objects "
-          "equals the originals.",
+          "equals the originals. "
+          "Audit round: wincode's 4 MiB preallocation limit (in force in both configurations until /repo 40b4e42) is modelled explicitly: decode_limited is exactly "
+          "decode restricted to values all of whose sequences pass the size check (C14_decode_limited_exact), a sequence one word above the limit round-trips "
+          "without and is refused with the limit (C14_codec_roundtrip_limited_refuted), and under a limit the build fails iff the limited reader refuses "
+          "(C14_limited_build_fails_iff); codec_roundtrip no longer assumes any length bound. Tie: the harness serialises with the configuration expressions copied "
+          "from ctbuilder.rs on every build, a serialisation error of a built grammar is a violation, and a family of sources with one sequence just above / at / "
+          "below 4 MiB runs in every tier.",
   "design_ref": "DESIGN.md §5 C14",
-  "note": _TB + "the translator (regex reader of the derive'd structs and vendored crates) is trusted; strings are byte lists; wincode's layout was read off the vendored crate.",
+  "note": _TB + "the translator (regex reader of the derive'd structs and vendored crates) is trusted; strings are byte lists; wincode's layout was read off the vendored crate. vlib/ctconfig.py (regex-level reader of the two call sites in ctbuilder.rs, fails closed) generates harness/src/c14_config.rs; Model.mem_size is compared with size_of per run and enters no theorem tied to the current code.",
   "technique": "Coq proof (codec round trip over a schema regenerated from the source) + byte-level and query-level differential"},
  {"id": "C16",
   "text": "Coq theorems: coherent_b is sound for the seven clauses of the statement (actions/shifts lists, targets = graph edges, "
@@ -191,10 +267,15 @@ CHECKS = [
           "production's rule, one argument per symbol in order (lexeme / child value) and the parameter; the actions-built tree equals the "
           "generic tree; the replay copy of the reduce code equals the main one; every call's span is the hull of the lexemes under its node, "
           "zero-length when there are none (proved for the repaired span computation, refuted by vm_compute for the pinned one; repaired), "
-          "also with recovery for any replayed repair sequence. Tie: recording closures through parse_actions vs the mirror's log, plus an "
-          "independent Python re-computation of post-order and hull spans from the implementation's own log and tree.",
+          "also with recovery for any replayed repair sequence. With recovery BOTH modes: for one and the same recoverer function (lexemes, laidx, "
+          "parse stack) -> applied sequence the generic-mode mirror returns exactly the erased tree, errors and applied sequences of the action-mode "
+          "mirror on every grammar, table and input (C08_actions_equal_generic_same_recoverer), and two recoverers differing at one tied "
+          "configuration give different trees (C08_actions_differ_generic_if_recoverer_differs_refuted: the pinned defect of /repo before ca69cd1). "
+          "Tie: recording closures through parse_actions vs the mirror's log, plus an independent Python re-computation of post-order and hull spans "
+          "from the implementation's own log and tree; plus, for every erroneous input, parse_actions and parse_map run 1 + 4 times each in one "
+          "process must agree on verdict, tree, errors and the ordered repairs() lists; parse_map vs the generic-mode mirror.",
   "design_ref": "DESIGN.md §5 C08",
-  "note": _TB + "the CPCT+ search itself is not mirrored here: the mirror replays the repair sequence the implementation reports.",
+  "note": _TB + "the CPCT+ search itself is not mirrored here: the recoverer is a function parameter of the mirrors; the correspondence feeds it the sequences the implementation reports; runs cut by the recovery time budget are not compared.",
   "technique": "Coq proof (refinement of the LR interpreter by a mirror with value/span stacks; post-order and hull invariants) + action-log differential"},
  {"id": "C20",
   "text": "Coq theorems on a mirror of the size bookkeeping with narrow w n = n mod 2^w: for the repaired guards, passing the guards implies "
@@ -206,7 +287,11 @@ CHECKS = [
           "max_st plus the hash-order oracles; proved for all grammars: the narrow run is a StorageT refusal or EQUALS the wide run under the "
           "same oracles (construction_bound_only_refuses, refusal_is_storage_check, construction_sizes_fit) and, for LR(1) grammars or "
           "conflict-free reports, any two successful runs with arbitrary bounds and oracles give the same tree or first-error position on "
-          "EVERY input (parse_results_width_independent); with resolved conflicts both are sound, equality remains differential.",
+          "EVERY input (parse_results_width_independent); with resolved conflicts both are sound, equality remains differential. "
+          "Audit round: the composition of the four state-count sites refuses iff the state count is >= MAX-1, and every such refusal carries the one documented "
+          "message class (C20_state_count_refused_iff, C20_state_count_boundary, C20_construction_state_count_refused; exactly MAX-1 / MAX states died in a bare "
+          "assert until /repo 394c6e3). Tie: grammars with exactly 253..256 (65533..65536) states x widths x profiles: a width accepts iff states <= MAX-2 and then "
+          "equals the u32 build, otherwise the panic text must be the documented one; a bare assertion during construction is a violation.",
   "design_ref": "DESIGN.md §5 C20",
   "note": _TB + "equality of table contents and parse results across widths is carried by the differential run, not by a theorem (partial).",
   "technique": "Coq proof (modular-arithmetic model of the width guards; width independence of the mirrored table construction and of parse results) + boundary-configuration and merge-family differential across storage widths"},
@@ -218,9 +303,13 @@ CHECKS = [
           "Del/Ins commute; search moves are sound under reduce-confluence, and refuted without it (search_sound_refuted: the witness is a "
           "sequence the implementation reports). The property is decided per reported sequence: valid_repair is evaluated by the extracted "
           "model on EVERY sequence of every error, and the mirror driver replays the implementation's first sequences and must reproduce "
-          "positions, states and the tree (faulty zero-length leaves for inserts).",
+          "positions, states and the tree (faulty zero-length leaves for inserts). "
+          "The reported list and the applied sequence are a function of the input: the tail of simplify_repairs (insertion-ordered dedup + any stable sort) "
+          "determines the list uniquely (simplify_deterministic, simplify_stable, simplify_same_set; the pinned HashSet + unstable sort refuted: "
+          "simplify_refuted_orig; repaired ca69cd1); tie: every erroneous input parsed 8 times in one process and in 4 processes - identical repairs() lists (order "
+          "included), applied sequences, values and later errors. Deep parse stacks: see C07.",
   "design_ref": "DESIGN.md §5 C05, §5B",
-  "note": _TB + "the bucketed search (dijkstra, merging, ranking) is not mirrored; time budget raised through the guarded hook.",
+  "note": _TB + "the bucketed search (dijkstra, merging, ranking) is not mirrored; time budget raised through the guarded hook. dedup_keep_first = IndexSet::from_iter, and that slice::sort_by is stable, are the libraries' contracts (any stable sort gives the same list).",
   "technique": "Coq proof (repair semantics: validity implies plain continuation; replay equivalence) + per-sequence validity evaluation and driver replay differential"},
  {"id": "C07",
   "text": "Coq theorems on the mirror of the recovery driver loop for ALL tables/inputs/oracles of valid repairs: error positions are "
@@ -228,9 +317,13 @@ CHECKS = [
           "|input|/N + 1, the outer loop terminates within 2|input|+3 iterations given that each run of reductions ends, a value is "
           "returned iff every error is repaired, only the last error may lack repairs, a clean accept equals the plain LR accept. Tie: the "
           "inequalities evaluated on the implementation's (value, errors) for generated erroneous inputs; first error and clean accept "
-          "cross-checked against the LR interpreter; watchdog for termination on acyclic grammars.",
+          "cross-checked against the LR interpreter; watchdog for termination on acyclic grammars. "
+          "'A parse always returns' with the native stack as an explicit resource: releasing the recoverer's copy of the parse stack needs length(pstack) nested "
+          "Rc::drop frames in the pinned code (recover_drop_depth_unbounded_refuted) and at most 2 with the unwinding guard (drop_iterative_depth, "
+          "recover_drop_depth_bounded; repaired 4f40408); tie: nesting depths 2 000 .. 1 000 000 on 2 / 8 MiB threads, one process per parse, analytic oracle (one "
+          "error, [Delete c] / [Insert c], leaves = repaired input). Determinism of the reported lists as C05; the deadline sweep compares lists.",
   "design_ref": "DESIGN.md §5 C07",
-  "note": _TB + "termination of runs of reductions (no epsilon-reduction cycle in the table) is a hypothesis; on conflict-resolved tables it fails (known findings).",
+  "note": _TB + "termination of runs of reductions (no epsilon-reduction cycle in the table) is a hypothesis; on conflict-resolved tables it fails (known findings). The frame-count model of Rc::drop is read off cactus::Cactus and tied to the code only through outcomes (abort / no abort at the measured depths).",
   "technique": "Coq proof (progress invariant of the recovery driver by induction over errors) + differential of error lists and outcomes"},
  {"id": "C06",
   "text": "Coq theorems on a verified REFERENCE: all_min_repairs enumerates (by iterative deepening on cost, pure sequence semantics, no "
